@@ -317,6 +317,9 @@ func init() {
 	models["("+bk+".BaseKeeper).GetSupply"] = getSupply
 	models["("+bk+".BaseViewKeeper).GetSupply"] = getSupply
 	models["("+bk+".BaseSendKeeper).GetSupply"] = getSupply
+	models["github.com/cosmos/cosmos-sdk/x/auth/types.NewModuleAddress"] = func(m *Machine, _ *Frame, _ *ssa.CallCommon, a []Val) Val {
+		return m.E.moduleAddr(term(a[0]))
+	}
 	models["(github.com/cosmos/cosmos-sdk/x/auth/keeper.AccountKeeper).GetModuleAddress"] = func(m *Machine, _ *Frame, _ *ssa.CallCommon, a []Val) Val {
 		return m.E.moduleAddr(term(a[1]))
 	}
